@@ -27,10 +27,16 @@ def main():
     for prog in job['progs']:
         obs, im = dsl.run_impl(prog)
         out['progs'].append(obs)
-        out['observers'].append(dsl.observe_all(im) if job.get('observers') else {})
+        try:
+            out['observers'].append(dsl.observe_all(im) if job.get('observers') else {})
+        except Exception as e:  # noqa -- a read-out that raises under this configuration is an answer to compare, not a reason to stop
+            out['observers'].append({'__error__': {'observers raised': [f"{type(e).__name__}: {e}"[:200]]}})
     for prog in job['recipes']:
-        o, r, handles, helper, initial = recipes.run_recipe(prog)
-        q = recipes.run_queries(prog, r, handles, helper.subs) if o[0] == 'ok' else []
+        try:
+            o, r, handles, helper, initial = recipes.run_recipe(prog)
+            q = recipes.run_queries(prog, r, handles, helper.subs) if o[0] == 'ok' else []
+        except Exception as e:  # noqa -- declaring the objects of the recipe was refused under this configuration
+            o, q = ['crash', type(e).__name__, str(e)[:200]], []
         res = {'bake': o, 'queries': q}
         if job.get('ledger'):
             # the eager execution of the same steps in THIS process (this configuration): what bake is to be compared with
